@@ -4,7 +4,7 @@ P=$1; PATCH=$(readlink -f $2); TIER=${3:-quick}
 cd /repo || exit 9
 if ! git diff --quiet; then echo "/repo dirty"; exit 9; fi
 git apply "$PATCH" || { echo "patch does not apply"; exit 9; }
-cd /verif; ./run.sh $P $TIER > /tmp/trymut.$P.log 2>&1; rc=$?
+cd /verif; VERIF_EVIDENCE_DIR=/tmp/trymut-evidence ./run.sh $P $TIER > /tmp/trymut.$P.log 2>&1; rc=$?
 git -C /repo checkout -- .
 echo "rc=$rc"; grep -a -E "VIOLATION|INCONCLUSIVE|test=" /tmp/trymut.$P.log | cut -c1-400 | head -8
 exit $rc
